@@ -364,4 +364,6 @@ def run(spec, ctx):
         try:
             run_case(ctx, idx)
         except Exception as exc:
-            ctx.error(f"case {idx}", exc)
+            # filter edits / refreshes / reads of a hierarchy are public operations with
+            # documented arguments: when the library raises, the operation failed
+            ctx.raised("c04.no_exception", f"case {idx}", exc)
